@@ -17,6 +17,9 @@ def run(ctx):
         W = p["window_size"]
         d = rng.randint(2, 4)
         xs = D.stream(rng, rng.randint(6, 9) * W, d, W)
+        if i % 4 == 3:   # an idle (constant) feature over the first reference windows that wakes up later
+            xs = D.idle_feature_stream(rng, len(xs), d, W)
+            p["online_scaling"] = i % 8 == 3 or p["online_scaling"]
         if i % 9 == 0:   # a stream whose test window equals its reference window
             xs = xs[:W] + xs[:W] + xs[W:]
         resets = sorted(rng.sample(range(2, len(xs)), rng.randint(0, 1)))
